@@ -494,7 +494,6 @@ func c10Mixed(c *caseCtx) (res caseResult) {
 	return res
 }
 
-
 // c10Child: duplicate SpawnChild under one parent, a top-level spawn colliding with
 // a child's id, and respawning a child after it stopped.
 type c10Parent struct {
@@ -615,14 +614,13 @@ func c10Child(c *caseCtx) (res caseResult) {
 	return res
 }
 
-
 // c10WhileStopping: while an actor is inside its Stopped handler the two views of
 // "is the id taken" must agree: GetPID finds it exactly if a spawn of the id is
 // refused. (Whether an implementation unregisters before or after Stopped is its
 // business; that the registry and GetPID tell the same story is not.)
 type c10Slow struct {
-	entered chan struct{}
-	release chan struct{}
+	entered    chan struct{}
+	release    chan struct{}
 	seenInside *actor.PID
 	ctxSeen    *actor.PID
 }
